@@ -179,6 +179,14 @@ carquet_schema_t* build_schema(
         return NULL;
     }
 
+    /* The name is a required field of SchemaElement; the accessors promise a non-NULL string */
+    for (int32_t i = 0; i < metadata->num_schema_elements; i++) {
+        if (!metadata->schema[i].name) {
+            CARQUET_SET_ERROR(error, CARQUET_ERROR_INVALID_SCHEMA, "Schema element %d has no name", (int)i);
+            return NULL;
+        }
+    }
+
     schema->elements = metadata->schema;
     schema->num_elements = metadata->num_schema_elements;
     schema->capacity = metadata->num_schema_elements;  /* Fixed size from file */
